@@ -304,9 +304,55 @@ func c13Judge(res core.CompileResult, h hostile, projDir, libs string, expectArt
 	return "", ""
 }
 
+// c13ImportMatrix: directed mini-projects, import path spelling x alias x use of the alias. The
+// spellings are the non-canonical forms of paths that exist (trailing / doubled / leading
+// separators, ./ and ../ segments, backslashes, blanks, a file suffix, wrong case); whether such an
+// import resolves or is refused is the compiler's business, it must neither crash nor misreport.
+func c13ImportMatrix() []hostile {
+	type spelling struct{ name, path, alias string }
+	var sps []spelling
+	for _, f := range []struct{ name, fmtS string }{
+		{"canonical", "%s"}, {"trailing-slash", "%s/"}, {"double-slash", "%[2]s//%[3]s"}, {"leading-slash", "/%s"}, {"leading-blank", " %s"}, {"trailing-blank", "%s "},
+		{"backslash", "%[2]s\\%[3]s"}, {"dot-segment", "%[2]s/./%[3]s"}, {"dotdot-segment", "%[2]s/x/../%[3]s"}, {"dot-prefix", "./%s"}, {"file-suffix", "%s.fer"}, {"upper-case", "%[4]s"},
+		{"tab-inside", "%[2]s/\t%[3]s"}, {"trailing-double-slash", "%s//"},
+	} {
+		for _, tgt := range []struct{ head, tail, alias string }{{"std", "io", "io"}, {"{{PROJ}}", "lib", "lib"}} {
+			full := tgt.head + "/" + tgt.tail
+			sps = append(sps, spelling{f.name + ":" + tgt.alias, fmt.Sprintf(f.fmtS, full, tgt.head, tgt.tail, strings.ToUpper(full)), tgt.alias})
+		}
+	}
+	uses := []struct{ name, top, body string }{
+		{"unused", "", "let a := 1;"},
+		{"alias-call", "", "ALIAS::USE;"},
+		{"explicit-alias-call", "", "zz::USE;"},
+		{"top-level-function-named-like-the-alias", "fn ALIAS() -> i32 {\n    return 1;\n}\n", "let a := 1;"},
+		{"top-level-let-named-like-the-alias", "let ALIAS: i32 = 1;\n", "let a := 1;"},
+		{"type-named-like-the-alias", "type ALIAS struct { .F: i32 };\n", "let a := 1;"},
+		{"second-import-same-alias", "import \"{{PROJ}}/other\" as ALIAS;\n", "let a := 1;"},
+	}
+	var out []hostile
+	for _, sp := range sps {
+		for _, u := range uses {
+			imp := fmt.Sprintf("import \"%s\";\n", sp.path)
+			if u.name == "explicit-alias-call" {
+				imp = fmt.Sprintf("import \"%s\" as zz;\n", sp.path)
+			}
+			use := "F()"
+			if sp.alias == "io" {
+				use = "Println(1)"
+			}
+			rep := strings.NewReplacer("ALIAS", sp.alias, "USE", use)
+			main := imp + rep.Replace(u.top) + "\nfn main() {\n    " + rep.Replace(u.body) + "\n}\n"
+			out = append(out, hostile{id: "import-matrix:" + sp.name + ":" + u.name, class: "import-matrix", files: map[string]string{
+				"main.fer": main, "lib.fer": "fn F() -> i32 {\n    return 1;\n}\n", "other.fer": "fn G() -> i32 {\n    return 2;\n}\n"}})
+		}
+	}
+	return out
+}
+
 func checkC13(c *Ctx) error {
 	r := c.R
-	r.Rule = "hostile inputs: random bytes, UTF-8 noise, prefix truncations (byte and token boundaries), 1-3 token deletions/duplications/swaps/insertions/replacements of corpus programs (smoke_test, examples), token soup, nesting depth up to 400, encoding oddities (CRLF, BOM, NUL, 10 KB identifiers, 3000-digit numbers, unterminated strings/comments), multi-file projects with missing/self/cyclic/malformed/late/duplicate imports; inputs <= 16 KiB. Every input runs through the real compiler (in-process pool: type-check and wasm targets; real CLI: native target for a share of the inputs and for every suspicious one). non-trivial = a distinct input whose outcome record satisfied every predicate (no crash, CPU budget, exit status in {0,1} and consistent with the diagnostics, artifact consistent, locations inside input files)"
+	r.Rule = "hostile inputs: random bytes, UTF-8 noise, prefix truncations (byte and token boundaries), 1-3 token deletions/duplications/swaps/insertions/replacements of corpus programs (smoke_test, examples), token soup, nesting depth up to 400, encoding oddities (CRLF, BOM, NUL, 10 KB identifiers, 3000-digit numbers, unterminated strings/comments), multi-file projects with missing/self/cyclic/malformed/late/duplicate imports, and a directed matrix of 28 non-canonical import path spellings x 7 ways of using (or clashing with) the import alias; inputs <= 16 KiB. Every input runs through the real compiler (in-process pool: type-check and wasm targets; real CLI: native target for a share of the inputs and for every suspicious one). non-trivial = a distinct input whose outcome record satisfied every predicate (no crash, CPU budget, exit status in {0,1} and consistent with the diagnostics, artifact consistent, locations inside input files)"
 	r.Assumptions = []string{"CPU budget 20 s per <=16 KiB input (>=30x the worst observed)", "a wall-clock watchdog firing is inconclusive, not a violation", "diagnostics pointing into the bundled library files count as inside an input file"}
 	corpus := c13Corpus(c.Env.Repo)
 	n := c.N(600, 20000)
@@ -332,6 +378,7 @@ func checkC13(c *Ctx) error {
 		{id: "probe:qbe-type-error", class: "probe", files: map[string]string{"main.fer": "import \"std/io\";\n\nfn main() {\n    let x: i64 = 7;\n    x -= 2;\n    io::Println(x);\n}\n"}},
 	}
 	hs = append(pins, hs...)
+	hs = append(c13ImportMatrix(), hs...)
 	// stage 1: pool, type-check + wasm
 	var jobs []core.Job
 	dirs := make([]string, len(hs))
